@@ -29,6 +29,7 @@ func Run(m *mon.M) {
 
 	m.Stream("sign.pool", m.N(25000, 1500000), poolTriples)
 	m.Stream("sign.near", m.N(300000, 20000000), nearTriple)
+	m.Stream("sign.denormal", m.N(60000, 3000000), denormalTriple)
 	m.Stream("sign.gp5", m.N(30000, 2000000), gp5)
 	m.Stream("sign.errsearch", m.N(8000, 400000), errSearch)
 	m.Stream("cmpdists", m.N(300000, 20000000), cmpDists)
@@ -172,6 +173,32 @@ func nearTriple(c *mon.Case) {
 	p := gen.OnGreatCircle(r, a, b, t, r.Intn(4))
 	if r.Intn(8) == 0 {
 		p = gen.Near(r, a, gen.LogUniform(r, 1e-300, 1e-12))
+	}
+	if c.I < 3 {
+		c.Sample(map[string]any{"a": gen.Hex(a), "b": gen.Hex(b), "c": gen.Hex(p)})
+	}
+	checkTriple(c, a, b, p)
+}
+
+// denormalTriple: points with zero coordinates (axes, coordinate planes, face diagonals) whose zeros are
+// replaced by denormal-scale values, together with their exact twins: the determinant cancels from terms of
+// size 1 down to about 2^-2148.
+func denormalTriple(c *mon.Case) {
+	r := c.R
+	base := func() s2.Point {
+		if r.Intn(3) == 0 {
+			return gen.OnPlane(r, r.Intn(3))
+		}
+		return gen.Special(r)
+	}
+	a := base()
+	b := gen.Denormalize(r, a)
+	p := gen.Denormalize(r, base())
+	switch r.Intn(4) {
+	case 0:
+		a = gen.Denormalize(r, a)
+	case 1:
+		b = gen.Denormalize(r, s2.Point{Vector: a.Mul(-1)})
 	}
 	if c.I < 3 {
 		c.Sample(map[string]any{"a": gen.Hex(a), "b": gen.Hex(b), "c": gen.Hex(p)})
